@@ -267,6 +267,13 @@ class ExprMixin:
             return [(st3.add(*facts), D)]
         return self.seq(self.ev(g.iter, st), k)
 
+    def e_SetComp(self, n, st):
+        """{E(x) for x in xs}: abstracted to a set with UNCONSTRAINED membership (imprecise, flagged); the generator is
+        not evaluated.  Only membership tests may follow."""
+        self.imprecise.add('set comprehension (membership unconstrained)')
+        D = V.Dict(fresh('setid', T.I))
+        return [(st.add(T.dcount(D) >= 0), D)]
+
     def e_JoinedStr(self, n, st):
         parts = []
         nodes = []
@@ -806,6 +813,8 @@ class ExprMixin:
             return [(st, self.static_attr(o, attr))]
         if isinstance(o, PyVal):
             raise NotFormed(f'attribute {attr} of {o!r}')
+        if ('method:' + attr) in self.reg.externals:
+            return [(st, BoundBuiltin(o, attr))]         # an assumed (external) contract takes precedence over source
         # nested classes of the runtime class (self.EmptyCell, self.ExcelInPythonException)
         for cname, info in self.reg.classes.items():
             if attr in info.get('nested', {}):
@@ -835,6 +844,8 @@ class ExprMixin:
         if attr == 'days':
             return self.cases(st, [(is_('TimeDelta', o), lambda s: [(s, V.Int(V.tdays(o)))]),
                                    (z3.Not(is_('TimeDelta', o)), lambda s: self.exc(s, 'AttributeError'))])
+        if attr == '__class__' and 'attr:__class__' in self.reg.externals:
+            return self.reg.externals['attr:__class__'](self, st, [o], {}, node)
         if attr == '__class__':
             if is_term(o) and self.class_name and self.class_name in ('ExcelInPython',):
                 # A-STATIC: the class of the runtime instance is the generated class; its attribute table is the
